@@ -190,3 +190,13 @@ Definition witness_stage (p : dedup_policy) (recs : list (rec (option Z) unit)) 
 Definition witness_recs (usage : option unit) : list (rec (option Z) unit) :=
   {| q_utc := 0; q_w := None; q_obs := usage |} :: {| q_utc := 0; q_w := Some 70%Z; q_obs := None |}
   :: map (fun k => {| q_utc := (60 * Z.of_nat k)%Z; q_w := Some 50%Z; q_obs := usage |}) (seq 1 23).
+
+(* ================================================================== daily data class: the meter-day index
+   stream mi: (filler clock, local wall-clock minutes of the rows of the frame, which rows carry a usage reading,
+   the index of data.df in local wall-clock minutes) *)
+Definition fc_of_z (n : Z) : fill_clock := if Z.eqb n 0 then FrameStart else ReadingClock.
+Definition check_mi (c : Z * list Z * list bool * list Z) : bool :=
+  let '(p, stamps, has, expected) := c in
+  list_eqb Z.eqb (meter_index_as_coded (fc_of_z p) stamps has) expected.
+Definition show_mi (c : Z * list Z * list bool * list Z) :=
+  let '(p, stamps, has, expected) := c in meter_index_as_coded (fc_of_z p) stamps has.
